@@ -26,7 +26,7 @@ CANARIES = {'harness/C05_restore.py': 'stub_canary()'}   # harness file -> nativ
 
 def obligations(tier):
     w = "after run/call/evaluate returns or raises: sys.stdout, time.sleep, sys.modules keys as before; _current_patches == [] == _current_stdout"
-    obs = [Ob("C05.restore1", F, "restore1", 600, part=str(e), what=w + " (also when pedal's own feedback construction fails or the program closed its stdout)") for e in range(3)]
+    obs = [Ob("C05.restore1", F, "restore1", 600, part="%d,%d" % (e, m), what=w + " (also when pedal's own feedback construction fails, the program closed its stdout, or tampered with sys.modules)") for e in range(3) for m in ((0, 1) if tier == "quick" and e else range(4))]
     obs += [
            Ob("C05.restore_reach", F, "restore_reach", 120, expect="refute", what="twin: a BaseException termination propagates out of run()")]
     w2 = w + "; the following normal execution captures exactly its own text"
